@@ -128,6 +128,14 @@ pub fn strings(thorough : bool, rng : &mut Rng) -> Vec<(String, &'static str)>
             v.push((t, "43 bytes with a foreign character"));
         }
     }
+    /* a valid text form with white space around it (44..60 bytes) */
+    for (k, pad) in [" ", "\n", "\t", "\r\n", "  ", " \t\r\n"].iter().enumerate()
+    {
+        let base = encode62(&vals[(k * 11) % vals.len()]);
+        v.push((format!("{}{}", base, pad), "valid, white space after"));
+        v.push((format!("{}{}", pad, base), "valid, white space before"));
+        v.push((format!("{}{}{}", pad, base, pad), "valid, white space around"));
+    }
     for _ in 0..(if thorough { 3000 } else { 200 })
     {   /* random valid-looking strings of 43 digits: about half of those starting high overflow */
         let mut s : Vec<u8> = (0..43).map(|_| ALPHABET[rng.below(62)]).collect();
@@ -153,7 +161,7 @@ impl Node
 }
 pub fn tree_json(t : &Vec<Node>) -> Value { json!(t.iter().map(|x| x.to_json()).collect::<Vec<Value>>()) }
 
-const NAMES : [&str; 14] = ["a", "b", "ab", "a.b", "a-b", "a b", "c", "part-0.txt", "part-1.txt", "é", "z", "A", "a0", "0"];
+const NAMES : [&str; 18] = ["a", "b", "ab", "a.b", "a-b", "a b", "c", "part-0.txt", "part-1.txt", "é", "z", "A", "a0", "0", "n.txt", "n.md", "n", "n.tar.gz"];
 const BITS : [&[u8]; 8] = [b"", b"x", b"y", b"xy", b"x\n", b"\ny", b"a/b", b"\x00"];
 
 fn gen_entries(rng : &mut Rng, depth : usize) -> Vec<Node>
@@ -203,6 +211,19 @@ pub fn mutate(rng : &mut Rng, t1 : &Vec<Node>) -> (Vec<Node>, &'static str)
         2 => { if let Some(n) = fresh(d, rng) { d.push(Node::File(n, vec![])); what = "empty file added"; } else { what = "same"; } },
         3 => { if let Some(n) = fresh(d, rng) { d.push(Node::Dir(n, vec![])); what = "empty directory added"; } else { what = "same"; } },
         4 => { if !d.is_empty() { let i = rng.below(d.len()); d.remove(i); what = "entry removed"; } else { what = "same"; } },
+        5 if rng.chance(1, 2) =>
+        {   /* only the part after the last dot of a name changes */
+            let c : Vec<usize> = (0..d.len()).filter(|i| d[*i].name().contains('.')).collect();
+            if c.is_empty() { what = "same"; }
+            else
+            {
+                let i = c[rng.below(c.len())];
+                let old = d[i].name().clone();
+                let stem = &old[..old.rfind('.').unwrap()];
+                let new = format!("{}.{}", stem, ["md", "txt", "x", "gz"][rng.below(4)]);
+                if new != old && !d.iter().any(|x| *x.name() == new) { match &mut d[i] { Node::File(m, _) => *m = new, Node::Dir(m, _) => *m = new }; what = "extension changed"; } else { what = "same"; }
+            }
+        },
         5 => { if !d.is_empty() { let i = rng.below(d.len()); if let Some(n) = fresh(d, rng) { match &mut d[i] { Node::File(m, _) => *m = n, Node::Dir(m, _) => *m = n }; what = "entry renamed"; } else { what = "same"; } } else { what = "same"; } },
         6 | 7 =>
         {   /* one byte of one file changed, appended or removed */
